@@ -110,6 +110,8 @@ func init() {
 			return false
 		}
 		for _, m := range c.Messages {
+			// both messages name the node: "licence list of node X: wrote.., read.." and
+			// "licence list of node X was truncated, so a second pass changes its concluded-licence text"
 			if m != "(not minimised)" && !strings.HasPrefix(m, "licence list of node") {
 				return false
 			}
